@@ -432,6 +432,7 @@ SIM_WORKLOAD("C14", "user-pools", run_c14, 10)
  * is not attached to any scheduler yet (ABT_pool_pop_threads / push_threads / pop_thread /
  * push_thread); for the legacy ABT_pool_def these go through the library's wrappers.  The
  * library must take exactly as many units out of the pool as it hands to the caller. ---- */
+static int builtin_priv;
 static void n_pop_many(ABT_pool pool, ABT_thread *threads, size_t max, size_t *num, ABT_pool_context ctx)
 {
     (void)ctx;
@@ -492,7 +493,16 @@ static void run_c14_bulk(void)
         ABT_OK(ABT_pool_create(&ldef, ABT_POOL_CONFIG_NULL, &S.UP[0].pool));
         S.UP[1].pool = ABT_POOL_NULL;
     }
-    ABT_OK(ABT_pool_create_basic(ABT_POOL_FIFO, ABT_POOL_ACCESS_MPMC, ABT_FALSE, &S.builtin));
+    {
+        /* the built-in pool next to them: any kind and any access mode (one caller does everything
+         * here, which every access mode allows) */
+        static const ABT_pool_kind bk[] = { ABT_POOL_FIFO, ABT_POOL_FIFO_WAIT, ABT_POOL_RANDWS };
+        static const ABT_pool_access ba[] = { ABT_POOL_ACCESS_PRIV, ABT_POOL_ACCESS_SPSC, ABT_POOL_ACCESS_MPSC, ABT_POOL_ACCESS_SPMC, ABT_POOL_ACCESS_MPMC };
+        int k = (int)plan_n(3), a = (int)plan_n(5);
+        ABT_OK(ABT_pool_create_basic(bk[k], ba[a], ABT_FALSE, &S.builtin));
+        builtin_priv = a == 0;
+        sim_note("builtin=%s/%d ", wl_pool_names[k], a);
+    }
     ABT_pool P[NUP + 1];
     int np = 0;
     for (int i = 0; i < nup; i++)
@@ -573,6 +583,19 @@ static void run_c14_bulk(void)
     }
     /* now let a stream run them */
     ABT_xstream xs;
+    ABT_pool handover = ABT_POOL_NULL;
+    if (builtin_priv) {
+        /* a private pool stays with the stream that used it so far: its units move on */
+        ABT_OK(ABT_pool_create_basic(ABT_POOL_FIFO, ABT_POOL_ACCESS_MPMC, ABT_FALSE, &handover));
+        for (;;) {
+            ABT_thread t = ABT_THREAD_NULL;
+            ABT_OK(ABT_pool_pop_thread(S.builtin, &t));
+            if (t == ABT_THREAD_NULL)
+                break;
+            ABT_OK(ABT_pool_push_thread(handover, t));
+        }
+        P[np - 1] = handover;
+    }
     ABT_OK(ABT_xstream_create_basic(ABT_SCHED_BASIC, np, P, ABT_SCHED_CONFIG_NULL, &xs));
     for (int i = 0; i < n; i++) {
         ABT_OK(ABT_thread_free(&th[i]));
@@ -590,11 +613,19 @@ static void run_c14_bulk(void)
     for (int i = 0; i < nup; i++)
         ABT_OK(ABT_pool_free(&S.UP[i].pool));
     ABT_OK(ABT_pool_free(&S.builtin));
+    if (handover != ABT_POOL_NULL)
+        ABT_OK(ABT_pool_free(&handover));
     ABT_OK(ABT_finalize());
     sim_ledger_check_empty("after ABT_finalize");
     sim_count("c14.bulk_rounds", (uint64_t)S.queries);
 }
 SIM_WORKLOAD("C14", "bulk", run_c14_bulk, 3)
+/* C01: a batch operation hands over exactly the units it took out; none is dropped on the way */
+static void run_c01_bulk(void)
+{
+    run_c14_bulk();
+}
+SIM_WORKLOAD("C01", "bulk", run_c01_bulk, 1)
 
 /* ---- "dispatch": the unit-handle routines that a hand-written scheduler uses to place work.
  * Units are created in staging pools that no scheduler serves (a built-in one and a user-defined
@@ -636,6 +667,16 @@ static void dsp_check_pool(du *u, const char *when)
         SIM_CHECK(r && r->alive && r->thread == self && r->pool == 1, "upool:wrong-translation", "unit %d (%s): its unit handle %#lx is not its live unit in the user-defined worker pool",
                   u->id, when, (unsigned long)(uintptr_t)unit);
     }
+}
+static ABT_unit bad_unit;
+static ABT_pool bad_pool;
+static volatile int bad_rc, bad_done;
+static void bad_run_unit(void *arg)
+{
+    (void)arg;
+    bad_rc = ABT_xstream_run_unit(bad_unit, bad_pool);
+    bad_done = 1;
+    sim_progress();
 }
 static void dsp_fn(void *arg)
 {
@@ -802,6 +843,29 @@ static void run_c14_dispatch(void)
                 continue;
             }
             ABT_OK(ABT_unit_set_associated_pool(unit, D.w[v->to]));
+            if ((v->id & 3) == 2) {
+                /* a caller that cannot run a unit (an external thread) tries: the call is refused
+                 * and the unit is what and where it was */
+                bad_unit = unit;
+                bad_pool = D.w[v->to];
+                bad_rc = 12345;
+                bad_done = 0;
+                int tid = sim_thread_create(bad_run_unit, NULL);
+                while (!bad_done)
+                    ABT_OK(ABT_thread_yield());
+                sim_thread_join(tid);
+                SIM_CHECK(bad_rc != ABT_SUCCESS, "upool:run-unit-by-external-thread", "ABT_xstream_run_unit called by an external thread returned ABT_SUCCESS");
+                ABT_thread t2 = ABT_THREAD_NULL;
+                ABT_unit u2 = ABT_UNIT_NULL;
+                ABT_pool lp2 = ABT_POOL_NULL;
+                ABT_OK(ABT_unit_get_thread(unit, &t2));
+                ABT_OK(ABT_thread_get_unit(t, &u2));
+                ABT_OK(ABT_thread_get_last_pool(t, &lp2));
+                SIM_CHECK(t2 == t && u2 == unit && lp2 == D.st[f], "upool:wrong-translation",
+                          "after the refused ABT_xstream_run_unit the unit translates to %p (was %p), the work unit's unit is %p (was %p) and its pool %s", (void *)t2, (void *)t, (void *)u2,
+                          (void *)unit, lp2 == D.st[f] ? "is unchanged" : "changed");
+                sim_count("c14.run_unit_refused_for_external_thread", 1);
+            }
             D.placed[f][v->to]++;
             ABT_OK(ABT_pool_push(D.w[v->to], unit));
             left--;
